@@ -48,7 +48,12 @@ func AppendHandlers(ctx context.Context, info *RunInfo, handlers ...Handler) con
 	if !ok {
 		return InitCallbacks(ctx, info, handlers...)
 	}
-	return InitCallbacks(ctx, info, append(cbm.handlers, handlers...)...)
+	// copy before appending: cbm.handlers is shared by every context derived from the same parent,
+	// appending in place would let sibling nodes overwrite each other's handlers when it has spare capacity.
+	nHandlers := make([]Handler, 0, len(cbm.handlers)+len(handlers))
+	nHandlers = append(nHandlers, cbm.handlers...)
+	nHandlers = append(nHandlers, handlers...)
+	return InitCallbacks(ctx, info, nHandlers...)
 }
 
 type Handle[T any] func(context.Context, T, *RunInfo, []Handler) (context.Context, T)
